@@ -375,8 +375,10 @@ def main():
         hrows = [l.split("\t") for l in ht.splitlines() if not l.startswith("PROBE")]
         # keep the harness answers for the probe comparison done by the Lean driver
         os.makedirs(os.path.join(ROOT, ".build"), exist_ok=True)
-        with open(os.path.join(ROOT, ".build", "harness_tables.txt"), "w") as f:
+        hp = os.path.join(ROOT, ".build", "harness_tables.txt")
+        with open(hp + ".tmp%d" % os.getpid(), "w") as f:
             f.write(ht)
+        os.replace(hp + ".tmp%d" % os.getpid(), hp)
         dets = [r for r in hrows if r[0] == "DET"]
         if rows is not None:        # (the text table fell back otherwise: the probes decide)
             if len(dets) != len(rows) + 2:
@@ -550,8 +552,9 @@ def main():
         with open(OUT) as f:
             prev = f.read()
     if prev != text:
-        with open(OUT, "w") as f:
+        with open(OUT + ".tmp%d" % os.getpid(), "w") as f:
             f.write(text)
+        os.replace(OUT + ".tmp%d" % os.getpid(), OUT)
     summary["tables_lean_sha"] = sha(text)
     summary["changed"] = prev != text
     if fallback:
